@@ -410,11 +410,22 @@ def report(ctx, kind, detail, no_input=False):
     print("VIOLATION property=%s replay=%s%s" % (ctx.prop, path, " no-failing-input-found" if no_input else ""), flush=True)
 
 
+def cfg_env(cfg):
+    """optional 4th element of a configuration tuple: extra environment for the harness process (e.g. {"HX_ALIGN": "5"}: every parsed
+    buffer is placed that many bytes past a malloc boundary, so word-at-a-time / vector code sees misaligned operands)"""
+    return dict(cfg[3]) if len(cfg) > 3 and cfg[3] else None
+
+
+def cfg_env_label(cfg):
+    e = cfg_env(cfg)
+    return "" if not e else " " + ",".join("%s=%s" % kv for kv in sorted(e.items()))
+
+
 def compare_streams(ctx, mod, lines, model_out, impl_out, cfg, crashed=None, max_report=3):
     """Diff model and implementation outputs; apply the property predicate; report.
     Mismatches on which the property predicate itself fails are reported first (up to max_report); if the
     predicate holds on every mismatch a single no-failing-input-found violation names the correspondence."""
-    label = "%s mask=%s %s" % (cfg[0], cfg[1] or "none", cfg[2])
+    label = "%s mask=%s %s%s" % (cfg[0], cfg[1] or "none", cfg[2], cfg_env_label(cfg))
     failing, benign, crash_at = [], [], None
     for i, ln in enumerate(lines):
         io = impl_out[i] if i < len(impl_out) else None
@@ -441,18 +452,18 @@ def compare_streams(ctx, mod, lines, model_out, impl_out, cfg, crashed=None, max
         (failing if fails else benign).append((i, ln, io, mo, why))
     nrep = 0
     for (i, ln, io, mo, why) in failing[:max_report]:
-        report(ctx, "corr:" + ln.split(" ")[0], {"op": ln, "config": label, "variant": cfg[0], "mask": cfg[1], "flavour": cfg[2],
+        report(ctx, "corr:" + ln.split(" ")[0], {"op": ln, "config": label, "variant": cfg[0], "mask": cfg[1], "flavour": cfg[2], "env": cfg_env(cfg),
                                                  "model": mo, "impl": io, "predicate_fails": True, "explanation": why,
                                                  "mismatches_total": len(failing) + len(benign)})
         nrep += 1
     if crash_at is not None:
         ln = lines[crash_at]
-        report(ctx, "crash", {"op": ln, "config": label, "variant": cfg[0], "mask": cfg[1], "flavour": cfg[2], "model": model_out[crash_at], "impl": None, "crash": crashed,
+        report(ctx, "crash", {"op": ln, "config": label, "variant": cfg[0], "mask": cfg[1], "flavour": cfg[2], "env": cfg_env(cfg), "model": model_out[crash_at], "impl": None, "crash": crashed,
                               "explanation": "the implementation terminated abnormally on this operation (every earlier operation had been answered)"})
         nrep += 1
     if not failing and crash_at is None and benign:
         (i, ln, io, mo, why) = benign[0]
-        report(ctx, "corr:" + ln.split(" ")[0], {"op": ln, "config": label, "variant": cfg[0], "mask": cfg[1], "flavour": cfg[2], "model": mo, "impl": io,
+        report(ctx, "corr:" + ln.split(" ")[0], {"op": ln, "config": label, "variant": cfg[0], "mask": cfg[1], "flavour": cfg[2], "env": cfg_env(cfg), "model": mo, "impl": io,
                                                  "predicate_fails": False, "explanation": why, "mismatches_total": len(benign),
                                                  "correspondence": "corr:" + ln.split(" ")[0]}, no_input=True)
         nrep += 1
